@@ -1,21 +1,580 @@
-"""self-validation battery for C06."""
+"""self-validation battery for C06.
+
+MUTANTS break one obligation each (and still compile); TWINS are behaviour-preserving respellings that must stay silent.
+The second half of both lists are *shape pairs*: a neutral respelling (helper extracted, test flipped, value through a
+local, loop vs comprehension, partition vs split, ...) and the same respelling with the property broken inside it.
+"""
 H = "http.py"
 R = "datastructures/range.py"
+A = "datastructures/auth.py"
+E = "datastructures/etag.py"
+S = "datastructures/structures.py"
+
+TOKEN_CHARS = '''"!#$%&'*+-.0123456789ABCDEFGHIJKLMNOPQRSTUVWXYZ^_`abcdefghijklmnopqrstuvwxyz|~"'''
+
+# ---- anchors (exact text of the current tree) ---------------------------------------------------------------
+Q_TAIL = '''    if allow_token:
+        token_chars = _token_chars
+
+        if token_chars.issuperset(value_str):
+            return value_str
+
+    value_str = value_str.replace("\\\\", "\\\\\\\\").replace('"', '\\\\"')
+    return f'"{value_str}"'
+'''
+UNQ_BODY = '''    if len(value) >= 2 and value[0] == value[-1] == '"':
+        value = value[1:-1]
+        return value.replace("\\\\\\\\", "\\\\").replace('\\\\"', '"')
+
+    return value
+'''
+LIST_BODY = '''    result = []
+
+    for item in _parse_list_header(value):
+        if len(item) >= 2 and item[0] == item[-1] == '"':
+            item = item[1:-1]
+
+        result.append(item)
+
+    return result
+'''
+DICT_PART = '''        key, has_value, value = item.partition("=")
+        key = key.strip()
+'''
+OPT_LOOP = '''    for key, value in options.items():
+        if value is None:
+            continue
+
+        if key[-1] == "*":
+            segments.append(f"{key}={value}")
+        else:
+            segments.append(f"{key}={quote_header_value(value)}")
+
+    return "; ".join(segments)
+'''
+DUMP_BODY = '''    if isinstance(iterable, dict):
+        items = []
+
+        for key, value in iterable.items():
+            if value is None:
+                items.append(key)
+            elif key[-1] == "*":
+                items.append(f"{key}={value}")
+            else:
+                items.append(f"{key}={quote_header_value(value)}")
+    else:
+        items = [quote_header_value(x) for x in iterable]
+
+    return ", ".join(items)
+'''
+CSP_DUMP = 'return "; ".join(f"{key} {value}" for key, value in header.items())'
+CSP_PARSE = '''            directive, value = policy.strip().split(" ", 1)
+            items.append((directive.strip(), value.strip()))
+'''
+OPT_TOKEN = '''            if (m := _parameter_token_value_re.match(rest)) is not None:
+                parts.append((pk, m.group()))
+
+            # Value may be a quoted string, find the closing quote.
+            elif rest[:1] == '"':
+'''
+OPT_UNQ = '''            pv = pv[1:-1].replace("\\\\\\\\", "\\\\").replace('\\\\"', '"').replace("%22", '"')
+'''
+RANGE_TO = '''        ranges = []
+        for begin, end in self.ranges:
+            if end is None:
+                ranges.append(f"{begin}-" if begin >= 0 else str(begin))
+            else:
+                ranges.append(f"{begin}-{end - 1}")
+        return f"{self.units}={','.join(ranges)}"
+'''
+CR_TO = '''        return f"{self._units} {self._start}-{self._stop - 1}/{length}"  # type: ignore[operator]
+'''
+CR_PARSE = '''        stop = _plain_int(stop_str) + 1
+'''
+RANGE_END = '''                try:
+                    end = _plain_int(end_str) + 1
+                except ValueError:
+                    return None
+'''
+ETAGS_TO = '''        return ", ".join(
+            [f'"{x}"' for x in self._strong] + [f'W/"{x}"' for x in self._weak]
+        )
+'''
+ETAG_LOOP = '''        is_weak, quoted, raw = match.groups()
+        if raw == "*":
+            return ds.ETags(star_tag=True)
+        elif quoted:
+            raw = quoted
+        if is_weak:
+            weak.append(raw)
+        else:
+            strong.append(raw)
+'''
+QETAG = '''    etag = f'"{etag}"'
+    if weak:
+        etag = f"W/{etag}"
+    return etag
+'''
+UNQETAG = '''    weak = False
+    if etag.startswith(("W/", "w/")):
+        weak = True
+        etag = etag[2:]
+    if etag[:1] == etag[-1:] == '"':
+        etag = etag[1:-1]
+    return etag, weak
+'''
+AUTH_FROM = '''        scheme, _, rest = value.partition(" ")
+        scheme = scheme.lower()
+        rest = rest.strip()
+
+        if scheme == "basic":
+'''
+AUTH_TO = '''        if self.type == "basic":
+            value = base64.b64encode(
+                f"{self.username}:{self.password}".encode()
+            ).decode("ascii")
+            return f"Basic {value}"
+
+        if self.token is not None:
+            return f"{self.type.title()} {self.token}"
+
+        return f"{self.type.title()} {dump_header(self.parameters)}"
+'''
+HS_TO = 'return ", ".join(map(http.quote_header_value, self._headers))'
+
+
+def _q_flipped(test: str) -> str:
+    return f'''    if {test}:
+        escaped = value_str.replace("\\\\", "\\\\\\\\")
+        escaped = escaped.replace('"', '\\\\"')
+        return '"' + escaped + '"'
+
+    return value_str
+'''
+
+
+def _q_helper(order_ok: bool) -> str:
+    a, b = '''escaped = value_str.replace("\\\\", "\\\\\\\\")''', '''escaped = escaped.replace('"', '\\\\"')'''
+    if not order_ok:
+        a, b = '''escaped = value_str.replace('"', '\\\\"')''', '''escaped = escaped.replace("\\\\", "\\\\\\\\")'''
+    return f'''    if allow_token and _is_token(value_str):
+        return value_str
+
+    {a}
+    {b}
+    return "".join(['"', escaped, '"'])
+
+
+def _is_token(text: str) -> bool:
+    return all(ch in _token_chars for ch in text)
+'''
+
+
+def _unq(strip: str, chain: str) -> str:
+    return f'''    if len(value) < 2 or not (value.startswith('"') and value.endswith('"')):
+        return value
+
+    inner = {strip}
+    return inner{chain}
+'''
+
+
+def _dump_helper(flip_ok: bool, opt_quote: bool = True) -> list:
+    quoted = 'f"{key}={quote_header_value(value)}"'
+    raw = 'f"{key}={value}"'
+    a, b = (quoted, raw) if flip_ok else (raw, quoted)
+    helper = f'''
+
+def _dump_pair(key: str, value: t.Any) -> str:
+    if "*" != key[-1]:
+        return {a}
+
+    return {b}
+'''
+    return [
+        (H, DUMP_BODY, '''    if not isinstance(iterable, dict):
+        return ", ".join(quote_header_value(x) for x in iterable)
+
+    return ", ".join(key if value is None else _dump_pair(key, value) for key, value in iterable.items())
+''' + helper),
+        (H, OPT_LOOP, '''    segments.extend(_dump_pair(key, value) for key, value in options.items() if value is not None)
+    return "; ".join(segments)
+'''),
+    ]
+
+
+def _etag_loop(g2: int, g3: int, star: str) -> str:
+    return f'''        is_weak = match.group(1)
+        quoted = match.group({g2})
+        raw = match.group({g3})
+        if {star} == "*":
+            return ds.ETags(star_tag=True)
+        (weak if is_weak else strong).append(quoted if quoted else raw)
+'''
+
+
+def _auth_helper(lower: bool) -> list:
+    return [
+        (A, AUTH_FROM, '''        scheme, rest = _scheme_and_rest(value)
+
+        if scheme == "basic":
+'''),
+        (A, "class Authorization:\n", f'''def _scheme_and_rest(value: str) -> tuple[str, str]:
+    parts = value.split(" ", 1)
+    return parts[0]{".lower()" if lower else ""}, (parts[1].strip() if len(parts) > 1 else "")
+
+
+class Authorization:
+'''),
+    ]
+
+
+def _auth_to(sep: str) -> str:
+    return f'''        kind = self.type.title()
+
+        if self.type != "basic":
+            return kind + " " + (dump_header(self.parameters) if self.token is None else self.token)
+
+        raw = (str(self.username) + "{sep}" + str(self.password)).encode()
+        return "Basic " + base64.b64encode(raw).decode("ascii")
+'''
+
+
 MUTANTS = [
-    {"name": "colon-in-token-chars", "expect": "R6.1", "edits": [(H, '''"!#$%&'*+-.0123456789ABCDEFGHIJKLMNOPQRSTUVWXYZ^_`abcdefghijklmnopqrstuvwxyz|~"''', '''"!#$%&'*+-.:0123456789ABCDEFGHIJKLMNOPQRSTUVWXYZ^_`abcdefghijklmnopqrstuvwxyz|~"''')]},
+    {"name": "colon-in-token-chars", "expect": "R6.1", "edits": [(H, TOKEN_CHARS, TOKEN_CHARS.replace("-.", "-.:"))]},
     {"name": "token-value-class-loses-bang", "expect": "R6.1", "edits": [(H, r'''_parameter_token_value_re = re.compile(r"[\w!#$%&'*+\-.^`|~]+", flags=re.ASCII)''', r'''_parameter_token_value_re = re.compile(r"[\w#$%&'*+\-.^`|~]+", flags=re.ASCII)''')]},
     {"name": "quote-order-swapped", "expect": "R6.2", "edits": [(H, '''value_str = value_str.replace("\\\\", "\\\\\\\\").replace('"', '\\\\"')''', '''value_str = value_str.replace('"', '\\\\"').replace("\\\\", "\\\\\\\\")''')]},
     {"name": "unquote-drops-backslash-pair", "expect": "R6.2", "edits": [(H, '''        return value.replace("\\\\\\\\", "\\\\").replace('\\\\"', '"')''', '''        return value.replace('\\\\"', '"')''')]},
     {"name": "empty-value-bare", "expect": "R6.3", "edits": [(H, "    if not value_str:\n        return '\"\"'\n", "")]},
     {"name": "range-end-inclusive", "expect": "R6.4", "edits": [(R, 'ranges.append(f"{begin}-{end - 1}")', 'ranges.append(f"{begin}-{end}")')]},
     {"name": "content-range-parse-no-plus-one", "expect": "R6.4", "edits": [(H, "        stop = _plain_int(stop_str) + 1", "        stop = _plain_int(stop_str)")]},
-    {"name": "csp-comma-join", "expect": "R6.5", "edits": [(H, 'return "; ".join(f"{key} {value}" for key, value in header.items())', 'return ", ".join(f"{key} {value}" for key, value in header.items())')]},
-    {"name": "etag-weak-lowercase-written", "expect": "R6.5", "edits": [("datastructures/etag.py", """[f'W/"{x}"' for x in self._weak]""", """[f'w/"{x}"' for x in self._weak]""")]},
+    {"name": "csp-comma-join", "expect": "R6.5", "edits": [(H, CSP_DUMP, CSP_DUMP.replace('"; "', '", "'))]},
+    # (writing the weak prefix in lower case is NOT a defect: _etag_re and unquote_etag read [Ww]/ - dropped)
+    {"name": "etag-weak-prefix-without-slash", "expect": "R6.5", "edits": [(E, """[f'W/"{x}"' for x in self._weak]""", """[f'W"{x}"' for x in self._weak]""")]},
     {"name": "etag-regex-no-lazy", "expect": "R6.5", "edits": [(H, '''_etag_re = re.compile(r'([Ww]/)?(?:"(.*?)"|(.*?))(?:\\s*,\\s*|$)')''', '''_etag_re = re.compile(r'([Ww]/)?(?:"(.*)"|(.*?))(?:\\s*,\\s*|$)')''')]},
     {"name": "dump-header-unquoted-value", "expect": "R6.5", "edits": [(H, '                items.append(f"{key}={quote_header_value(value)}")', '                items.append(f"{key}={value}")')]},
     {"name": "cache-control-dumps-options", "expect": "R6.6", "edits": [("datastructures/cache_control.py", "return http.dump_header(self)", "return http.dump_options_header(None, self)")]},
+    # ---- the property broken inside a respelled shape (each has its neutral counterpart in TWINS) ----
+    {"name": "shape:quote-flipped-guard-and-for-or", "expect": "R6.1", "edits": [(H, Q_TAIL, _q_flipped("not allow_token and not set(value_str) <= _token_chars"))]},
+    {"name": "shape:quote-helper-split-chain-swapped", "expect": "R6.2", "edits": [(H, Q_TAIL, _q_helper(False))]},
+    {"name": "shape:quote-regex-test-not-full", "expect": "R6.1", "edits": [(H, Q_TAIL, '''    if allow_token and _token_re.match(value_str):
+        return value_str
+
+    value_str = value_str.replace("\\\\", "\\\\\\\\").replace('"', '\\\\"')
+    return f'"{value_str}"'
+
+
+_token_re = re.compile(r"[!#$%&'*+\\-.^_`|~0-9A-Za-z]+")
+''')]},
+    {"name": "shape:unquote-early-return-strip-all-quotes", "expect": "R6.2", "edits": [(H, UNQ_BODY, _unq("value.strip('\"')", '''.replace("\\\\\\\\", "\\\\").replace('\\\\"', '"')'''))]},
+    {"name": "shape:unquote-early-return-no-backslash", "expect": "R6.2", "edits": [(H, UNQ_BODY, _unq("value[1:-1]", '''.replace('\\\\"', '"')'''))]},
+    {"name": "shape:list-comprehension-unescapes-again", "expect": "R6.2", "edits": [(H, LIST_BODY, '''    return [
+        item[1:-1].replace("\\\\\\\\", "\\\\") if len(item) >= 2 and item[0] == item[-1] == '"' else item
+        for item in _parse_list_header(value)
+    ]
+''')]},
+    {"name": "shape:dict-split-last-equals", "expect": "R6.2", "edits": [(H, DICT_PART, '''        key, has_value, value = item.rpartition("=")
+        key = key.strip()
+''')]},
+    {"name": "shape:options-unquote-steps-no-backslash", "expect": "R6.2", "edits": [(H, OPT_UNQ, '''            pv = pv[1:-1]
+            pv = pv.replace('\\\\"', '"')
+            pv = pv.replace("%22", '"')
+''')]},
+    {"name": "shape:options-quote-test-wrong-char", "expect": "R6.1", "edits": [(H, OPT_TOKEN, '''            m = _parameter_token_value_re.match(rest)
+
+            if m:
+                parts.append((pk, m.group()))
+            elif rest.startswith("'"):
+''')]},
+    {"name": "shape:range-writer-local-no-offset", "expect": "R6.4", "edits": [(R, RANGE_TO, '''        ranges = []
+        for begin, end in self.ranges:
+            if end is not None:
+                last = end
+                ranges.append(str(begin) + "-" + str(last))
+                continue
+            ranges.append("%d-" % begin if begin >= 0 else str(begin))
+        return self.units + "=" + ",".join(ranges)
+''')]},
+    {"name": "shape:content-range-writer-format-no-offset", "expect": "R6.4", "edits": [(R, CR_TO, '''        last = self._stop
+        return "{} {}-{}/{}".format(self._units, self._start, last, length)
+''')]},
+    {"name": "shape:content-range-parser-augassign-two", "expect": "R6.4", "edits": [(H, CR_PARSE, '''        stop = _plain_int(stop_str)
+        stop += 2
+''')]},
+    {"name": "shape:range-parser-else-branch-no-offset", "expect": "R6.4", "edits": [(H, RANGE_END, '''                try:
+                    end = _plain_int(end_str)
+                except ValueError:
+                    return None
+                else:
+                    end += 0
+''')]},
+    {"name": "shape:dump-pair-helper-branches-swapped", "expect": "R6.5", "edits": _dump_helper(False)},
+    {"name": "shape:csp-format-equals", "expect": "R6.5", "edits": [(H, CSP_DUMP, '''parts = []
+    for key, value in header.items():
+        parts.append("{}={}".format(key, value))
+    return "; ".join(parts)''')]},
+    {"name": "shape:csp-parse-partition-wrong-sep", "expect": "R6.5", "edits": [(H, CSP_PARSE, '''            directive, _, value = policy.partition("=")
+            items.append((directive.strip(), value.strip()))
+''')]},
+    {"name": "shape:etags-loops-weak-without-slash", "expect": "R6.5", "edits": [(E, ETAGS_TO, '''        tags = []
+        for x in self._strong:
+            tags.append('"%s"' % x)
+        for x in self._weak:
+            tags.append('W"%s"' % x)
+        return ", ".join(tags)
+''')]},
+    {"name": "shape:parse-etags-group-calls-swapped", "expect": "R6.5", "edits": [(H, ETAG_LOOP, _etag_loop(3, 2, "raw"))]},
+    {"name": "shape:parse-etags-star-on-quoted-or-raw", "expect": "R6.5", "edits": [(H, ETAG_LOOP, _etag_loop(2, 3, "(quoted or raw)"))]},
+    {"name": "shape:unquote-etag-slice-off-by-one", "expect": "R6.5", "edits": [(H, UNQETAG, '''    weak = etag[:2] in ("W/", "w/")
+    if weak:
+        etag = etag[3:]
+    if etag.startswith('"') and etag.endswith('"'):
+        etag = etag[1:-1]
+    return etag, weak
+''')]},
+    {"name": "shape:quote-etag-prefix-local-no-quotes", "expect": "R6.5", "edits": [(H, QETAG, '''    prefix = "W/" if weak else ""
+    return prefix + etag
+''')]},
+    {"name": "shape:headerset-comprehension-unquoted", "expect": "R6.5", "edits": [(S, HS_TO, 'return ", ".join([str(x) for x in self._headers])')]},
+    {"name": "shape:auth-helper-no-lower", "expect": "R6.6", "edits": _auth_helper(False)},
+    {"name": "shape:auth-to-header-semicolon", "expect": "R6.6", "edits": [(A, AUTH_TO, _auth_to(";"))]},
 ]
+
 TWINS = [
-    {"name": "token-chars-narrower", "edits": [(H, '''"!#$%&'*+-.0123456789ABCDEFGHIJKLMNOPQRSTUVWXYZ^_`abcdefghijklmnopqrstuvwxyz|~"''', '''"!#$%&'+-.0123456789ABCDEFGHIJKLMNOPQRSTUVWXYZ^_`abcdefghijklmnopqrstuvwxyz|~"''')]},
+    {"name": "token-chars-narrower", "edits": [(H, TOKEN_CHARS, TOKEN_CHARS.replace("'*+", "'+"))]},
     {"name": "rename-token-chars", "edits": [(H, "_token_chars = frozenset(", "_tchars = frozenset("), (H, "        token_chars = _token_chars\n", "        token_chars = _tchars\n")]},
+    # ---- neutral respellings --------------------------------------------------------------------------
+    {"name": "shape:quote-flipped-guard-set-operator", "edits": [(H, Q_TAIL, _q_flipped("not allow_token or not set(value_str) <= _token_chars"))]},
+    {"name": "shape:quote-helper-split-chain", "edits": [(H, Q_TAIL, _q_helper(True))]},
+    {"name": "shape:quote-regex-fullmatch", "edits": [(H, Q_TAIL, '''    if allow_token and _token_re.fullmatch(value_str) is not None:
+        return value_str
+
+    value_str = value_str.replace("\\\\", "\\\\\\\\").replace('"', '\\\\"')
+    return f'"{value_str}"'
+
+
+_token_re = re.compile(r"[!#$%&'*+\\-.^_`|~0-9A-Za-z]+")
+''')]},
+    {"name": "shape:unquote-early-return-startswith", "edits": [(H, UNQ_BODY, _unq("value[1:-1]", '''.replace("\\\\\\\\", "\\\\").replace('\\\\"', '"')'''))]},
+    {"name": "shape:list-comprehension-conditional", "edits": [(H, LIST_BODY, '''    return [
+        item[1:-1] if len(item) >= 2 and item[0] == item[-1] == '"' else item
+        for item in _parse_list_header(value)
+    ]
+''')]},
+    {"name": "shape:options-unquote-steps-startswith", "edits": [(H, OPT_UNQ, '''            pv = pv[1:-1]
+            pv = pv.replace("\\\\\\\\", "\\\\").replace('\\\\"', '"')
+            pv = pv.replace("%22", '"')
+'''), (H, OPT_TOKEN, '''            m = _parameter_token_value_re.match(rest)
+
+            if m:
+                parts.append((pk, m.group()))
+            elif rest.startswith('"'):
+''')]},
+    {"name": "shape:range-writer-local-concat-printf", "edits": [(R, RANGE_TO, '''        ranges = []
+        for begin, end in self.ranges:
+            if end is not None:
+                last = end - 1
+                ranges.append(str(begin) + "-" + str(last))
+                continue
+            ranges.append("%d-" % begin if begin >= 0 else str(begin))
+        return self.units + "=" + ",".join(ranges)
+'''), (R, CR_TO, '''        last = self._stop - 1  # type: ignore[operator]
+        return "{} {}-{}/{}".format(self._units, self._start, last, length)
+''')]},
+    {"name": "shape:range-parsers-augassign", "edits": [(H, CR_PARSE, '''        stop = _plain_int(stop_str)
+        stop += 1
+'''), (H, RANGE_END, '''                try:
+                    end = _plain_int(end_str)
+                except ValueError:
+                    return None
+                else:
+                    end += 1
+''')]},
+    {"name": "shape:dump-pair-helper-generators", "edits": _dump_helper(True)},
+    {"name": "shape:csp-loop-format-partition", "edits": [(H, CSP_DUMP, '''parts = []
+    for key, value in header.items():
+        parts.append("{} {}".format(key, value))
+    return "; ".join(parts)'''), (H, CSP_PARSE, '''            directive, _, value = policy.partition(" ")
+            items.append((directive.strip(), value.strip()))
+''')]},
+    {"name": "shape:etags-loops-printf", "edits": [(E, ETAGS_TO, '''        tags = []
+        for x in self._strong:
+            tags.append('"%s"' % x)
+        for x in self._weak:
+            tags.append('W/"%s"' % x)
+        return ", ".join(tags)
+''')]},
+    {"name": "shape:parse-etags-group-calls", "edits": [(H, ETAG_LOOP, _etag_loop(2, 3, "raw"))]},
+    {"name": "shape:etag-codecs-prefix-local", "edits": [(H, QETAG, '''    prefix = "W/" if weak else ""
+    return prefix + '"' + etag + '"'
+'''), (H, UNQETAG, '''    weak = etag[:2] in ("W/", "w/")
+    if weak:
+        etag = etag[2:]
+    if etag.startswith('"') and etag.endswith('"'):
+        etag = etag[1:-1]
+    return etag, weak
+''')]},
+    {"name": "shape:headerset-comprehension", "edits": [(S, HS_TO, 'return ", ".join([http.quote_header_value(x) for x in self._headers])')]},
+    {"name": "shape:auth-helper-split", "edits": _auth_helper(True)},
+    {"name": "shape:auth-to-header-concat-flipped", "edits": [(A, AUTH_TO, _auth_to(":"))]},
+]
+
+# ---- third group: further respellings (value through a boolean local, single return with a conditional expression,
+# re.sub escaping, starred lists, split vs partition with the test moved, "sep".join of a literal tuple, 1 + n) ----
+DICT_HEAD = '''        key, has_value, value = item.partition("=")
+        key = key.strip()
+
+        if not key:
+            # =value is not valid
+            continue
+
+        if not has_value:
+            result[key] = None
+            continue
+'''
+CSP_ITEM = '''        policy = policy.strip()
+
+        # Ignore badly formatted policies (no space)
+        if " " in policy:
+            directive, value = policy.strip().split(" ", 1)
+            items.append((directive.strip(), value.strip()))
+'''
+TCR = '''        range = self.range_for_length(length)
+        if range is not None:
+            return f"{self.units} {range[0]}-{range[1] - 1}/{length}"
+        return None
+'''
+BASIC = '''            value = base64.b64encode(
+                f"{self.username}:{self.password}".encode()
+            ).decode("ascii")
+            return f"Basic {value}"
+'''
+
+
+def _q_local(op: str) -> str:
+    return f'''    needs_quoting = not allow_token {op} not _token_chars.issuperset(value_str)
+
+    if not needs_quoting:
+        return value_str
+
+    return '"%s"' % value_str.replace("\\\\", "\\\\\\\\").replace('"', '\\\\"')
+'''
+
+
+def _q_resub(cls: str) -> str:
+    return f'''    if allow_token and not (set(value_str) - _token_chars):
+        return value_str
+
+    return '"' + re.sub(r'([{cls}])', r"\\\\\\1", value_str) + '"'
+'''
+
+
+def _opt_starred(quoted: bool) -> str:
+    v = "quote_header_value(value)" if quoted else "value"
+    return f'''    params = [
+        f"{{key}}={{value}}" if key.endswith("*") else f"{{key}}={{{v}}}"
+        for key, value in options.items()
+        if value is not None
+    ]
+    return "; ".join([*segments, *params])
+'''
+
+
+def _dict_split(call: str) -> str:
+    return f'''        if "=" not in item:
+            key = item.strip()
+
+            if key:
+                result[key] = None
+
+            continue
+
+        key, value = item.{call}
+        key = key.strip()
+
+        if not key:
+            # =value is not valid
+            continue
+'''
+
+
+def _range_join(last: str) -> str:
+    return f'''        ranges = [
+            "-".join((str(begin), "" if end is None else str({last}))) if end is not None or begin >= 0 else str(begin)
+            for begin, end in self.ranges
+        ]
+        return "=".join((self.units, ",".join(ranges)))
+'''
+
+
+def _tcr(stop: str) -> str:
+    return f'''        rng = self.range_for_length(length)
+        if rng is None:
+            return None
+        start, stop = rng
+        return f"{{self.units}} {{start}}-{{{stop}}}/{{length}}"
+'''
+
+
+def _csp_item(sep: str) -> str:
+    return f'''        directive, sep, text = policy.strip().partition("{sep}")
+
+        # Ignore badly formatted policies (no space)
+        if sep:
+            items.append((directive.strip(), text.strip()))
+'''
+
+
+def _etags_starred(strong: str) -> str:
+    return f'''        strong = [{strong} for x in self._strong]
+        weak = ['W/"' + x + '"' for x in self._weak]
+        return ", ".join([*strong, *weak])
+'''
+
+
+def _basic(sep: str) -> str:
+    return f'''            pair = "{sep}".join((str(self.username), str(self.password)))
+            return "Basic " + base64.b64encode(pair.encode()).decode("ascii")
+'''
+
+
+TWINS += [
+    {"name": "shape:quote-needs-quoting-local-printf", "edits": [(H, Q_TAIL, _q_local("or"))]},
+    {"name": "shape:quote-single-return-ifexp", "edits": [(H, Q_TAIL, '''    escaped = value_str.replace("\\\\", "\\\\\\\\").replace('"', '\\\\"')
+    return value_str if (allow_token and _token_chars >= set(value_str)) else f'"{escaped}"'
+''')]},
+    {"name": "shape:quote-re-sub", "edits": [(H, Q_TAIL, _q_resub('\\\\\\\\"'))]},
+    {"name": "shape:unquote-merged-assignment", "edits": [(H, UNQ_BODY, '''    if value[:1] == value[-1:] == '"' and len(value) >= 2:
+        value = value[1:-1].replace("\\\\\\\\", "\\\\").replace('\\\\"', '"')
+
+    return value
+''')]},
+    # (key.endswith("*") differs from key[-1] == "*" only for the empty key, which is outside the domain: keys are tokens)
+    {"name": "shape:options-comprehension-starred", "edits": [(H, OPT_LOOP, _opt_starred(True))]},
+    {"name": "shape:dict-in-test-then-split", "edits": [(H, DICT_HEAD, _dict_split('split("=", 1)'))]},
+    {"name": "shape:range-writers-join-tuple-unpack", "edits": [(R, RANGE_TO, _range_join("end - 1")), (R, TCR, _tcr("stop - 1")), (H, CR_PARSE, "        stop = 1 + _plain_int(stop_str)\n")]},
+    {"name": "shape:csp-partition-sep-test", "edits": [(H, CSP_ITEM, _csp_item(" "))]},
+    {"name": "shape:etags-starred-concat", "edits": [(E, ETAGS_TO, _etags_starred("""f'"{x}"'"""))]},
+    {"name": "shape:basic-join-tuple", "edits": [(A, BASIC, _basic(":"))]},
+]
+MUTANTS += [
+    {"name": "shape:quote-needs-quoting-local-and", "expect": "R6.1", "edits": [(H, Q_TAIL, _q_local("and"))]},
+    {"name": "shape:quote-re-sub-quote-only", "expect": "R6.2", "edits": [(H, Q_TAIL, _q_resub('"'))]},
+    {"name": "shape:options-comprehension-unquoted", "expect": "R6.5", "edits": [(H, OPT_LOOP, _opt_starred(False))]},
+    {"name": "shape:dict-in-test-then-rsplit", "expect": "R6.2", "edits": [(H, DICT_HEAD, _dict_split('rsplit("=", 1)'))]},
+    {"name": "shape:range-writer-join-tuple-no-offset", "expect": "R6.4", "edits": [(R, RANGE_TO, _range_join("end"))]},
+    {"name": "shape:to-content-range-unpack-no-offset", "expect": "R6.4", "edits": [(R, TCR, _tcr("stop"))]},
+    {"name": "shape:content-range-parser-two-plus", "expect": "R6.4", "edits": [(H, CR_PARSE, "        stop = 2 + _plain_int(stop_str)\n")]},
+    {"name": "shape:csp-partition-comma", "expect": "R6.5", "edits": [(H, CSP_ITEM, _csp_item(","))]},
+    {"name": "shape:etags-starred-strong-unquoted", "expect": "R6.5", "edits": [(E, ETAGS_TO, _etags_starred("x"))]},
+    {"name": "shape:basic-join-semicolon", "expect": "R6.6", "edits": [(A, BASIC, _basic(";"))]},
+]
+
+# ---- plain regressions outside the respelled shapes ----
+MUTANTS += [
+    {"name": "unquote-extra-rewrite", "expect": "R6.2", "edits": [(H, '''        return value.replace("\\\\\\\\", "\\\\").replace('\\\\"', '"')''', '''        return value.replace("\\\\\\\\", "\\\\").replace('\\\\"', '"').replace("+", " ")''')]},
+    {"name": "set-header-plain-split", "expect": "R6.5", "edits": [(H, "return ds.HeaderSet(parse_list_header(value), on_update)", 'return ds.HeaderSet(value.split(","), on_update)')]},
+    {"name": "if-range-no-unquote", "expect": "R6.6", "edits": [(H, "return ds.IfRange(unquote_etag(value)[0])", "return ds.IfRange(value)")]},
+    {"name": "range-parser-splits-on-semicolon", "expect": "R6.5", "edits": [(H, 'for item in rng.split(","):', 'for item in rng.split(";"):')]},
+    {"name": "options-quote-test-second-char", "expect": "R6.1", "edits": [(H, """            elif rest[:1] == '"':""", """            elif rest[1:2] == '"':""")]},
 ]
